@@ -27,6 +27,16 @@ What the model states
   index], both the drift index without a warning;
 * untracked rates are not computed at all.
 
+Round-3 widening (parameter regions outside the first alphabets): the decay
+factor may be any float in [0, 1] (0: the statistic is the last hit indicator;
+1: it never moves and every simulated value is 0), levels anywhere in [0, 1]
+(0: bounds are the extreme simulated values, 1/2: both bounds are the median,
+above 1/2: the "lower" bound lies above the "upper" one and almost everything is
+outside), ``num_mc`` down to 1, ``round_val`` 0 (every rate collapses onto the
+keys 0 and 1) up to 12.  The statistic is computed in exact rational arithmetic
+on the *binary value* of the decay factor, so that (1 - eta) carries no error of
+its own when eta is close to 1.
+
 The caller owns numpy's global RNG: it must seed it immediately before
 ``step`` with the same value it used before the real ``update`` (§2.3).
 Every bound comparison goes through the Decider ``D``.
@@ -132,9 +142,14 @@ class LFRModel:
         round_val=4,
     ):
         self.eta = time_decay_factor
-        self.eta_q = Fraction(repr(float(time_decay_factor)))
-        # float arithmetic is exact for a dyadic decay factor on these horizons
-        self.dyadic = self.eta_q.denominator & (self.eta_q.denominator - 1) == 0
+        # the exact binary value of the parameter: what a correct float implementation approximates
+        self.eta_q = Fraction(float(time_decay_factor))
+        # "dyadic-closed" configurations: a decay factor with a tiny power-of-two denominator
+        # (0, 1/4, 1/2, 3/4, 1).  Float arithmetic on it is exact as long as the numbers stay
+        # inside 53 bits, which ``_exact_now`` verifies per comparison (long histories leave
+        # that regime; comparisons are then ordinary tolerance comparisons).
+        self.eta_bits = self.eta_q.denominator.bit_length() - 1
+        self.dyadic = self.eta_bits <= 4
         self.warning_level = warning_level
         self.detect_level = detect_level
         self.burn_in = burn_in
@@ -158,6 +173,19 @@ class LFRModel:
         self.C = [[1, 1], [1, 1]]  # [pred][true]
         self.R = {r: HALF for r in self.tracked}
         self.recs = [None, None]
+
+    def _exact_now(self, R, N):
+        """True when the detector's float arithmetic for this comparison is provably exact:
+        dyadic decay factor, the statistic R a dyadic rational of < 50 bits (every earlier
+        value of it had fewer), and every simulated value (1-eta)*sum eta^(N-i) b_i a
+        multiple of 2^-((N-1)*bits+bits) below 1, i.e. < 50 bits as well.  Then both sides
+        hold bit-identical statistics and bounds, and a statistic exactly on a bound is
+        enforced as "not outside"."""
+        if not self.dyadic:
+            return False
+        if R.denominator.bit_length() > 50:
+            return False
+        return N * self.eta_bits <= 48
 
     def bounds(self, p, N, diag):
         k, tie = rounded_key(p, self.round_val)
@@ -212,7 +240,7 @@ class LFRModel:
                 p, N = new[r]
                 lbw, ubw, lbd, ubd = self.bounds(p, N, diag)
                 R = float(self.R[r])
-                ex = self.dyadic
+                ex = self._exact_now(self.R[r], N)
                 f = [
                     D.lt(R, lbw, exact=ex), D.gt(R, ubw, exact=ex),
                     D.lt(R, lbd, exact=ex), D.gt(R, ubd, exact=ex),
